@@ -244,6 +244,7 @@ def c05(ck):
     cases = text_cases(ck, alph, 4 if ck.quick else 5)
     cases += text_cases(ck, ["chain"], 4 if ck.quick else 8)
     cases += text_cases(ck, ["escseeds"], 3)
+    cases += text_cases(ck, ["deep"], 3 if ck.quick else 6)
     ck.replay(cases, args=["-prop", "C05"])
     ck.exhaustive = True
     ck.extra["alphabets"] = alph
@@ -288,6 +289,7 @@ def c16(ck):
                "with the innermost closer / malformed; READ and the REPL's own multiLine classifier must agree")
     cases = text_cases(ck, ["tokens", "tokens2"], 4 if ck.quick else 5)
     cases += text_cases(ck, ["brackets", "macros"], 4)
+    cases += text_cases(ck, ["deep"], 3 if ck.quick else 6)
     seen = {}
     for c in cases:
         seen.setdefault(c["text"], c)
